@@ -77,6 +77,7 @@ func runPassive(sc Script) *evid.Failure {
 		tcp.SynRcvdCountThreshold = 0
 	}
 	env := rawpeer.NewEnv(rawpeer.EnvCfg{V6: sc.V6, MTU: 1500, SACK: true})
+	defer env.Close()
 	l, err := env.Listen(listenPort, 64)
 	if err != nil {
 		return evid.Failf("harness", "listen: %v", err)
